@@ -324,14 +324,7 @@ pub fn run(ctx: &Ctx, rep: &mut Report) {
                     chunks,
                     cdc: false,
                 };
-                match chunk_oracle(&c) {
-                    Ok(info) => st.record(hash_of(&(len, mask)), &info, || serde_json::to_value(&c).unwrap()),
-                    Err((s, m)) => {
-                        if fails.len() < 3 {
-                            fails.push((s, m, serde_json::to_value(&c).unwrap()))
-                        }
-                    }
-                }
+                eval_direct(&mut st, &mut fails, &c, chunk_oracle);
             }
         }
         // plus data of length 17..=40 with every two-cut composition
@@ -344,22 +337,11 @@ pub fn run(ctx: &Ctx, rep: &mut Report) {
                         chunks: vec![a as u8, (b - a) as u8],
                         cdc: false,
                     };
-                    match chunk_oracle(&c) {
-                        Ok(info) => st.record(hash_of(&(len, a, b, 1)), &info, || serde_json::to_value(&c).unwrap()),
-                        Err((s, m)) => {
-                            if fails.len() < 3 {
-                                fails.push((s, m, serde_json::to_value(&c).unwrap()))
-                            }
-                        }
-                    }
+                    eval_direct(&mut st, &mut fails, &c, chunk_oracle);
                 }
             }
         }
-        rep.sub("chunking_exhaustive").merge(st);
-        rep.sub_exhaustive.insert("chunking_exhaustive".into(), true);
-        for (s, m, c) in fails {
-            rep.fail("chunking_exhaustive", &s, &m, c);
-        }
+        finish_direct(rep, "chunking_exhaustive", st, fails, true);
     }
     run_prop_par(rep, "statement", ctx.tier.pick(40_000, 3_000_000), ncpu(), stmt_case, stmt_oracle);
     run_prop_par(
